@@ -26,8 +26,9 @@ func init() {
 			"(9) block.NewReader keeps the slice it is given, so every caller hands over freshly allocated bytes; the decoder's sanity limits on key lengths are not below the 16-bit format maximum; " +
 			"(10) seek landing, structural part: the restart search of block.Iterator.Seek is classified by the update table of one iteration (lower-bound / floor) and a lower-bound search must examine the interval before the restart point it found; the index stores each block's FIRST key, so the index seek must step back to the last entry <= target — BOTH VIOLATED on this tree (recorded findings, demo in findings_demos/). " +
 			"Added after blind round 5: the temporary file of a table is named after the table's own file name. " +
-			"Added after blind round 6: the block checksum is computed last and covers everything but itself on both sides (the restart count steers decoding); every *block.Iterator stored anywhere in pkg/sstable is made on the spot by block.Reader.Iterator(), which returns a fresh allocation (table iterators never share a cursor).",
-		NotDecided: "DECLARED UNDECIDED: that forward iteration yields every entry exactly once (decodeCurrent does not advance the cursor, so a raw per-file scan delivers the first entry of a block twice; the merging iterators hide it) and the exact landing position of Seek beyond the two structural conditions of (10) (e.g. what Seek answers at the end of a block). Also not decided: point-lookup completeness for all data sets, behaviour under arbitrary corruption.",
+			"Added after blind round 6: the block checksum is computed last and covers everything but itself on both sides (the restart count steers decoding); every *block.Iterator stored anywhere in pkg/sstable is made on the spot by block.Reader.Iterator(), which returns a fresh allocation (table iterators never share a cursor). " +
+			"Added after blind round 6: the cursor protocol of the block entry decoders: decodeCurrent, like decodeNext, consumes the writer's field sequence and leaves the cursor behind the entry (tree defect, repaired: 8de228a — the entry an iterator was positioned on was delivered twice).",
+		NotDecided: "DECLARED UNDECIDED: the exact landing position of Seek beyond the two structural conditions of (10) (e.g. what Seek answers at the end of a block), and 'every entry exactly once' beyond the cursor protocol of the two entry decoders (both must leave the cursor behind the entry they decode — decided since session 4; the tree's decodeCurrent did not, repaired by 8de228a). Also not decided: point-lookup completeness for all data sets, behaviour under arbitrary corruption.",
 		Rules:      []func(*Ctx, *Reporter){ruleFooterCodec, ruleIndexEntryCodec, ruleBlockEntryTrace, ruleBlockTrailer, ruleSstChecksums, ruleBloomKey, ruleBloomSiblings, ruleBuilderStrictOrder, ruleIndexFirstKey, ruleNoNarrowArithmetic, ruleEmptyNotDeleted, ruleTombstoneMarker, ruleSstReentrancy, ruleRetainedBuffersAreFresh, ruleReaderLimitsCoverFormat, ruleBlockSeekInterval, ruleIndexSeekAgreement, ruleTempFilePerTable, ruleBlockChecksumCoverage, ruleIteratorsOwnCursors},
 	})
 }
@@ -290,11 +291,12 @@ func sizeofBasic(t types.Type) int64 {
 }
 
 func ruleBlockEntryTrace(c *Ctx, r *Reporter) {
-	r.Rule("block-entry-agreement", 4)
+	r.Rule("block-entry-agreement", 12)
 	finish := c.Func("pkg/sstable/block", "Builder", "Finish")
-	next := c.Func("pkg/sstable/block", "Iterator", "decodeNext")
-	if finish == nil || next == nil {
-		r.Unresolved("block.Builder.Finish / block.Iterator.decodeNext", "not found")
+	nextFn := c.Func("pkg/sstable/block", "Iterator", "decodeNext")
+	curFn := c.Func("pkg/sstable/block", "Iterator", "decodeCurrent")
+	if finish == nil || nextFn == nil || curFn == nil {
+		r.Unresolved("block.Builder.Finish / block.Iterator.decodeNext / decodeCurrent", "not found")
 		return
 	}
 	// the entry loop of Finish: the range loop that calls binary.Write
@@ -386,113 +388,123 @@ func ruleBlockEntryTrace(c *Ctx, r *Reporter) {
 				wSeq = append(wSeq, "bytes")
 			}
 		}
-		// reader
-		it := "param:" + next.Params[0].Name()
-		scR := &Scenario{Terms: map[string]int64{it + ".currentPos": 10, it + ".dataEnd": 1000, it + ".currentKey": 3, "len(" + it + ".reader.restartPoints)": 1, it + ".reader.restartPoints[*]": 99}, Bools: map[string]bool{}, MaxVisits: 40}
-		big := int64(500)
-		scR.DefaultInt = &big
-		if row.restart {
-			scR.Terms[it+".reader.restartPoints[*]"] = 10
-		}
-		marker := int64(0xFFFFFFFF)
-		if k := c.Const("pkg/sstable/block", "TombstoneValueLengthMarker"); k != nil {
-			if u, ok := constant.Uint64Val(k.Val()); ok {
-				marker = int64(u)
-			}
-		}
-		// decoded values: lengths small, value length = marker for tombstones
-		AllInstrs(next, false, func(_ *ssa.Function, ins ssa.Instruction) {
-			call, ok := ins.(*ssa.Call)
-			if !ok {
-				return
-			}
-			_, op, w := binaryOrderCall(call)
-			if op != "get" {
-				return
-			}
-			if scR.Vals == nil {
-				scR.Vals = map[ssa.Value]int64{}
-			}
-			switch w {
-			case 2:
-				scR.Vals[call] = 3
-			case 8:
-				scR.Vals[call] = 42
-			case 4:
-				if row.tombstone {
-					scR.Vals[call] = marker
-				} else {
-					scR.Vals[call] = 5
-				}
-			}
-		})
-		registerCalls(next, scR, nil, map[string]int64{"validateDeltaEncoding": NilRank}, nil)
-		evR := EvalPath(next.Blocks[0], nil, scR, nil)
-		var rSeq []string
-		for _, e := range evR.Effects {
-			call, ok := e.Ins.(*ssa.Call)
-			if !ok {
+		// readers: decodeNext (used by Next) for every row; decodeCurrent (used by the Seek* methods, always at a
+		// restart point) for the restart rows. Both must consume the writer's field sequence AND leave the cursor behind
+		// the entry: a decoder that leaves the cursor on the entry makes the following Next deliver it a second time.
+		for _, next := range []*ssa.Function{nextFn, curFn} {
+			if next == curFn && !row.restart {
 				continue
 			}
-			if _, op, w := binaryOrderCall(call); op == "get" {
-				rSeq = append(rSeq, fmt.Sprint(w))
+			it := "param:" + next.Params[0].Name()
+			scR := &Scenario{Terms: map[string]int64{it + ".currentPos": 10, it + ".dataEnd": 1000, it + ".currentKey": 3, "len(" + it + ".reader.restartPoints)": 1, it + ".reader.restartPoints[*]": 99}, Bools: map[string]bool{}, MaxVisits: 40}
+			big := int64(500)
+			scR.DefaultInt = &big
+			if row.restart {
+				scR.Terms[it+".reader.restartPoints[*]"] = 10
 			}
-			if b, ok := call.Call.Value.(*ssa.Builtin); ok && b.Name() == "copy" {
-				// value / key bytes
-				if len(rSeq) == 0 || rSeq[len(rSeq)-1] != "bytes" {
-					rSeq = append(rSeq, "bytes")
+			marker := int64(0xFFFFFFFF)
+			if k := c.Const("pkg/sstable/block", "TombstoneValueLengthMarker"); k != nil {
+				if u, ok := constant.Uint64Val(k.Val()); ok {
+					marker = int64(u)
 				}
 			}
-		}
-		rn := "block.entry[" + row.name + "]"
-		if evW.Err != "" || evR.Err != "" || evR.Ret == nil {
-			r.Undecided(rn, c.FnPos(next), fmt.Sprintf("trace not decidable: writer %q reader %q", evW.Err, evR.Err))
-			continue
-		}
-		// normalise: in the delta path the reader copies twice (shared prefix + suffix) for one written suffix
-		norm := func(seq []string) string {
-			var out []string
-			for i, s := range seq {
-				if s == "bytes" && i > 0 && seq[i-1] == "bytes" {
+			// decoded values: lengths small, value length = marker for tombstones
+			AllInstrs(next, false, func(_ *ssa.Function, ins ssa.Instruction) {
+				call, ok := ins.(*ssa.Call)
+				if !ok {
+					return
+				}
+				_, op, w := binaryOrderCall(call)
+				if op != "get" {
+					return
+				}
+				if scR.Vals == nil {
+					scR.Vals = map[ssa.Value]int64{}
+				}
+				switch w {
+				case 2:
+					scR.Vals[call] = 3
+				case 8:
+					scR.Vals[call] = 42
+				case 4:
+					if row.tombstone {
+						scR.Vals[call] = marker
+					} else {
+						scR.Vals[call] = 5
+					}
+				}
+			})
+			registerCalls(next, scR, nil, map[string]int64{"validateDeltaEncoding": NilRank}, nil)
+			evR := EvalPath(next.Blocks[0], nil, scR, nil)
+			var rSeq []string
+			for _, e := range evR.Effects {
+				call, ok := e.Ins.(*ssa.Call)
+				if !ok {
 					continue
 				}
-				out = append(out, s)
-			}
-			return strings.Join(out, ",")
-		}
-		ws, rs := norm(wSeq), norm(rSeq)
-		r.Check(ws == rs && len(wSeq) >= 3, rn, c.FnPos(next), "field sequence "+ws+" on both sides", "the writer emits the field sequence ["+ws+"] but the reader consumes ["+rs+"]")
-		// the reader's cursor advances by exactly what it consumed
-		adv := int64(0)
-		for _, e := range evR.Effects {
-			if e.Kind == "store" && strings.HasSuffix(e.What, ".currentPos") {
-				// value = old + delta: evaluate through the stored instruction
-				if st, ok := e.Ins.(*ssa.Store); ok {
-					av := (&evaluator{sc: scR, phi: evR.phi}).eval(st.Val, 0)
-					if av.Kind == "int" {
-						// each store is currentPos (scenario value 10) + increment: accumulate the increments
-						adv += av.I - 10
+				if _, op, w := binaryOrderCall(call); op == "get" {
+					rSeq = append(rSeq, fmt.Sprint(w))
+				}
+				if b, ok := call.Call.Value.(*ssa.Builtin); ok && b.Name() == "copy" {
+					// value / key bytes
+					if len(rSeq) == 0 || rSeq[len(rSeq)-1] != "bytes" {
+						rSeq = append(rSeq, "bytes")
 					}
 				}
 			}
-		}
-		want := int64(10)
-		// consumed: fixed widths + key bytes (3 per length field in this scenario) + value bytes (5 unless tombstone)
-		for _, s := range rSeq {
-			switch s {
-			case "2":
-				want += 2
-			case "4":
-				want += 4
-			case "8":
-				want += 8
+			rn := "block.entry[" + row.name + "]"
+			if next == curFn {
+				rn = "block.entry@decodeCurrent[" + row.name + "]"
 			}
+			if evW.Err != "" || evR.Err != "" || evR.Ret == nil {
+				r.Undecided(rn, c.FnPos(next), fmt.Sprintf("trace not decidable: writer %q reader %q", evW.Err, evR.Err))
+				continue
+			}
+			// normalise: in the delta path the reader copies twice (shared prefix + suffix) for one written suffix
+			norm := func(seq []string) string {
+				var out []string
+				for i, s := range seq {
+					if s == "bytes" && i > 0 && seq[i-1] == "bytes" {
+						continue
+					}
+					out = append(out, s)
+				}
+				return strings.Join(out, ",")
+			}
+			ws, rs := norm(wSeq), norm(rSeq)
+			r.Check(ws == rs && len(wSeq) >= 3, rn, c.FnPos(next), "field sequence "+ws+" on both sides", "the writer emits the field sequence ["+ws+"] but the reader consumes ["+rs+"]")
+			// the reader's cursor advances by exactly what it consumed
+			adv := int64(0)
+			for _, e := range evR.Effects {
+				if e.Kind == "store" && strings.HasSuffix(e.What, ".currentPos") {
+					// value = old + delta: evaluate through the stored instruction
+					if st, ok := e.Ins.(*ssa.Store); ok {
+						av := (&evaluator{sc: scR, phi: evR.phi}).eval(st.Val, 0)
+						if av.Kind == "int" {
+							// each store is currentPos (scenario value 10) + increment: accumulate the increments
+							adv += av.I - 10
+						}
+					}
+				}
+			}
+			want := int64(10)
+			// consumed: fixed widths + key bytes (3 per length field in this scenario) + value bytes (5 unless tombstone)
+			for _, s := range rSeq {
+				switch s {
+				case "2":
+					want += 2
+				case "4":
+					want += 4
+				case "8":
+					want += 8
+				}
+			}
+			want += 3 // key bytes (restart: keyLen=3; delta: unsharedLen=3)
+			if !row.tombstone {
+				want += 5
+			}
+			r.Check(adv == want-10, rn+":cursor", c.FnPos(next), fmt.Sprintf("cursor advances by the %d bytes consumed", want-10), fmt.Sprintf("the cursor advances by %d bytes but the entry occupies %d: the next entry would be decoded from the wrong position (0: the same entry is decoded again — delivered twice)", adv, want-10))
 		}
-		want += 3 // key bytes (restart: keyLen=3; delta: unsharedLen=3)
-		if !row.tombstone {
-			want += 5
-		}
-		r.Check(adv == want-10, rn+":cursor", c.FnPos(next), fmt.Sprintf("cursor advances by the %d bytes consumed", want-10), fmt.Sprintf("the cursor advances by %d bytes but the entry occupies %d: the next entry would be decoded from the wrong position", adv, want-10))
 	}
 }
 
